@@ -318,8 +318,22 @@ func (c *Ctx) c03Advance() {
 		}
 		l := core.NewLin(c.P, fn, c.modSets(), c.summaries("C03.R4"))
 		var decoded, advance *ssa.Slice
+		var decX *ssa.UnOp // the window value the decoded prefix is taken from
+		var decHigh ssa.Value
 		for _, b := range fn.Blocks {
 			for _, in := range b.Instrs {
+				// unsafe.String(unsafe.SliceData(Msg), n): the first n bytes of the window, as Msg[:n]
+				if call, isCall := in.(*ssa.Call); isCall && len(call.Call.Args) == 2 {
+					if bi, isB := call.Call.Value.(*ssa.Builtin); isB && bi.Name() == "String" {
+						if inner, isC := call.Call.Args[0].(*ssa.Call); isC && len(inner.Call.Args) == 1 {
+							if bj, isB2 := inner.Call.Value.(*ssa.Builtin); isB2 && bj.Name() == "SliceData" {
+								if u, isU := inner.Call.Args[0].(*ssa.UnOp); isU && l.FM.Loads[u] != nil && l.FM.Loads[u].Field == "Msg" {
+									decX, decHigh = u, call.Call.Args[1]
+								}
+							}
+						}
+					}
+				}
 				sl, ok := in.(*ssa.Slice)
 				if !ok {
 					continue
@@ -329,6 +343,7 @@ func (c *Ctx) c03Advance() {
 				}
 				if sl.Low == nil && sl.High != nil {
 					decoded = sl
+					decX, decHigh = sl.X.(*ssa.UnOp), sl.High
 				}
 				if sl.Low != nil && sl.High == nil {
 					// stored back into Msg?
@@ -342,7 +357,8 @@ func (c *Ctx) c03Advance() {
 				}
 			}
 		}
-		if decoded == nil || advance == nil {
+		_ = decoded
+		if decX == nil || advance == nil {
 			// delegation: the fixed-width accessors may take their bytes from GetBytes(width)
 			width := map[string]int64{"GetUint16": 2, "GetUint32": 4}[sp.name]
 			okDel := false
@@ -366,11 +382,11 @@ func (c *Ctx) c03Advance() {
 			R.Check(okDel, "C03.R4", sp.name+":consume-what-you-decode", c.atFn(fn), "the accessor decodes a prefix of the window and advances past it (directly, or by taking exactly its width from GetBytes)", sprintf("delegates to GetBytes(%d) and decodes that slice on the success edge", width), "prefix slice Msg[:h] / advancing store Msg = Msg[l:] not found, and no delegation to GetBytes(width)")
 			continue
 		}
-		ht, ho := l.Expr(decoded.High)
+		ht, ho := l.Expr(decHigh)
 		lt, lo := l.Expr(advance.Low)
 		ok := ht.String() == lt.String() && lo-ho == sp.extra
 		// both slices are taken from the same window value
-		ua, ub := decoded.X.(*ssa.UnOp), advance.X.(*ssa.UnOp)
+		ua, ub := decX, advance.X.(*ssa.UnOp)
 		same := l.FM.Loads[ua] == l.FM.Loads[ub]
 		R.Check(ok && same, "C03.R4", sp.name+":consume-what-you-decode", c.at(advance), "the window advances by exactly the bytes decoded (plus the terminator for strings): no byte is skipped or decoded twice", sprintf("decoded Msg[:%s%+d], advanced to Msg[%s%+d:]", ht, ho, lt, lo), sprintf("decoded Msg[:%s%+d] but advanced to Msg[%s%+d:] (expected +%d)", ht, ho, lt, lo, sp.extra))
 	}
